@@ -39,17 +39,22 @@ type sStream struct {
 type sPage struct {
 	s     *sStream
 	items []int
+	next  *sPage // the page the `next` link leads to (nil: none)
 }
 
-func (p *sPage) HasNext() bool { return false }
+func (p *sPage) HasNext() bool { return p.next != nil }
 func (p *sPage) GetItemIterator() (pagination.IIterator, error) {
 	return &mIter{items: p.items}, nil
 }
 func (p *sPage) GetItemCount() (int64, error) { return int64(len(p.items)), nil }
 func (p *sPage) GetNext(context.Context) (pagination.IPage, error) {
+	if p.next != nil {
+		return p.next, nil
+	}
 	return nil, errors.New("no next page")
 }
-func (p *sPage) HasFuture() bool { return true }
+// only the last page of a `next` chain carries the link to the future
+func (p *sPage) HasFuture() bool { return p.next == nil }
 func (p *sPage) future() *sPage {
 	p.s.mu.Lock()
 	defer p.s.mu.Unlock()
@@ -60,9 +65,9 @@ func (p *sPage) future() *sPage {
 	if p.s.next < len(p.s.batches) && time.Since(p.s.t0) >= time.Duration(p.s.batches[p.s.next].atMs)*time.Millisecond {
 		b := p.s.batches[p.s.next]
 		p.s.next++
-		return &sPage{p.s, b.items}
+		return &sPage{s: p.s, items: b.items}
 	}
-	return &sPage{p.s, nil}
+	return &sPage{s: p.s}
 }
 func (p *sPage) GetFuture(context.Context) (pagination.IStream, error) {
 	if f := p.future(); f != nil {
@@ -73,6 +78,7 @@ func (p *sPage) GetFuture(context.Context) (pagination.IStream, error) {
 
 type streamScenario struct {
 	name    string
+	chain   [][]int // pages reached from the first one through `next` links (the last of them carries the future)
 	first   []int
 	batches []sBatch
 	dryAtMs int // -1: never (the harness stops the paginator at stopAtMs)
@@ -84,16 +90,24 @@ func streamFutureScenarios(rep *hx.Report, o *hx.Opts) {
 	const slack = 150 * time.Millisecond
 	const endBound = 1500 * time.Millisecond
 	scen := []streamScenario{
-		{"quiet-longer-than-the-grace-period-before-DryUp", []int{1, 2}, []sBatch{{1000, []int{3, 4, 5}}}, 900, 0},
-		{"steady-items-then-DryUp", []int{1}, []sBatch{{60, []int{2}}, {120, []int{3, 4}}, {180, nil}, {300, []int{5}}}, 200, 0},
-		{"dry-from-the-start", []int{1, 2, 3}, []sBatch{{100, []int{4}}, {180, []int{5, 6}}}, 0, 0},
-		{"never-dry-gaps-longer-than-the-grace-period", nil, []sBatch{{100, []int{1}}, {700, []int{2, 3}}}, -1, 1000},
-		{"empty-first-page-then-DryUp-after-a-quiet-period", nil, []sBatch{{650, []int{7}}}, 600, 0},
+		{"quiet-longer-than-the-grace-period-before-DryUp", nil, []int{1, 2}, []sBatch{{1000, []int{3, 4, 5}}}, 900, 0},
+		{"steady-items-then-DryUp", nil, []int{1}, []sBatch{{60, []int{2}}, {120, []int{3, 4}}, {180, nil}, {300, []int{5}}}, 200, 0},
+		{"dry-from-the-start", nil, []int{1, 2, 3}, []sBatch{{100, []int{4}}, {180, []int{5, 6}}}, 0, 0},
+		{"never-dry-gaps-longer-than-the-grace-period", nil, nil, []sBatch{{100, []int{1}}, {700, []int{2, 3}}}, -1, 1000},
+		{"empty-first-page-then-DryUp-after-a-quiet-period", nil, nil, []sBatch{{650, []int{7}}}, 600, 0},
+		{"next-chain-ending-in-an-empty-page-then-future-pages", [][]int{{}}, []int{1, 2}, []sBatch{{60, []int{3, 4}}}, 250, 0},
+		{"next-chain-with-items-then-an-empty-page-then-future-pages", [][]int{{3}, {}, {}}, []int{1, 2}, []sBatch{{80, []int{4}}, {140, []int{5, 6}}}, 300, 0},
 	}
 	if o.Thorough() {
 		rnd := hx.NewRand(o.Seed + 77)
 		for i := 0; i < 12; i++ {
 			sc := streamScenario{name: fmt.Sprintf("random-%d", i), dryAtMs: 100 * rnd.Intn(12)}
+			if rnd.Chance(40) {
+				sc.first = []int{-1}
+				for k, nk := 0, 1+rnd.Intn(3); k < nk; k++ {
+					sc.chain = append(sc.chain, nil)
+				}
+			}
 			at := 0
 			n := 1
 			for k, nb := 0, rnd.Intn(5); k < nb; k++ {
@@ -116,7 +130,12 @@ func streamFutureScenarios(rep *hx.Report, o *hx.Opts) {
 			go func(sc streamScenario, kind string) {
 				defer wg.Done()
 				st := &sStream{batches: sc.batches}
-				first := &sPage{st, sc.first}
+				first := &sPage{s: st, items: sc.first}
+				tail := first
+				for _, its := range sc.chain {
+					tail.next = &sPage{s: st, items: its}
+					tail = tail.next
+				}
 				ctx, cancelAll := context.WithTimeout(context.Background(), 8*time.Second)
 				defer cancelAll()
 				var p interface {
@@ -129,7 +148,10 @@ func streamFutureScenarios(rep *hx.Report, o *hx.Opts) {
 				} else {
 					p, err = pagination.NewStaticPageStreamPaginator(ctx, T, 2*time.Millisecond,
 						func(context.Context) (pagination.IStaticPageStream, error) { return first, nil },
-						func(context.Context, pagination.IStaticPage) (pagination.IStaticPage, error) {
+						func(_ context.Context, cur pagination.IStaticPage) (pagination.IStaticPage, error) {
+							if n := cur.(*sPage).next; n != nil {
+								return n, nil
+							}
 							return nil, errors.New("no next page")
 						},
 						func(_ context.Context, cur pagination.IStaticPageStream) (pagination.IStaticPageStream, error) {
@@ -139,7 +161,7 @@ func streamFutureScenarios(rep *hx.Report, o *hx.Opts) {
 							return nil, errors.New("stream closed by the harness watchdog")
 						})
 				}
-				caseTxt := fmt.Sprintf("stream %s %s first=%v batches=%v dryUp@%dms grace=%v", kind, sc.name, sc.first, sc.batches, sc.dryAtMs, T)
+				caseTxt := fmt.Sprintf("stream %s %s first=%v next-chain=%v batches=%v dryUp@%dms grace=%v", kind, sc.name, sc.first, sc.chain, sc.batches, sc.dryAtMs, T)
 				if err != nil {
 					mu.Lock()
 					rep.Fail(hx.Failure{Kind: "harness-error", Key: "stream-paginator-constructor", Case: caseTxt, Detail: err.Error()})
@@ -217,6 +239,10 @@ func streamFutureScenarios(rep *hx.Report, o *hx.Opts) {
 				var must, may []int
 				must = append(must, sc.first...)
 				may = append(may, sc.first...)
+				for _, its := range sc.chain {
+					must = append(must, its...)
+					may = append(may, its...)
+				}
 				for _, b := range sc.batches {
 					at := t0.Add(time.Duration(b.atMs) * time.Millisecond)
 					switch {
